@@ -13,7 +13,11 @@ def _mk(input_type, grouped, **ctor):
     from panoptica.utils.segmentation_class import SegmentationClassGroups
     from panoptica.utils.label_group import LabelGroup
     from panoptica.metrics import Metric
-    groups = SegmentationClassGroups({"a": LabelGroup([1, 2, 3]), "b": LabelGroup([4], single_instance=True)}) if grouped else None
+    from panoptica.utils.label_group import LabelMergeGroup
+    if grouped == "merge":
+        groups = SegmentationClassGroups({"all": LabelMergeGroup([1, 2, 3, 4])})
+    else:
+        groups = SegmentationClassGroups({"a": LabelGroup([1, 2, 3]), "b": LabelGroup([4], single_instance=True)}) if grouped else None
     return Panoptica_Evaluator(expected_input=InputType[input_type], instance_approximator=ConnectedComponentsInstanceApproximator(),
                                instance_matcher=NaiveThresholdMatching(), segmentation_class_groups=groups,
                                instance_metrics=[Metric.DSC, Metric.IOU, Metric.ASSD, Metric.RVD], global_metrics=[Metric.DSC], **ctor)
@@ -102,7 +106,7 @@ def bounded(params):
     # 2. fresh-evaluator baselines
     base = {}
     for it in ("SEMANTIC", "UNMATCHED_INSTANCE", "MATCHED_INSTANCE"):
-        for grouped in (False, True):
+        for grouped in (False, True, "merge"):
             for i, (p, r) in enumerate(inputs):
                 base[(it, grouped, i)] = _results(_mk(it, grouped), p.copy(), r.copy(), verbose=False)
     # 3. histories on shared evaluators
@@ -110,7 +114,7 @@ def bounded(params):
     n_hist = 6 if tier == "quick" else 40
     for h in range(n_hist):
         it = rng.choice(["SEMANTIC", "UNMATCHED_INSTANCE", "MATCHED_INSTANCE"])
-        grouped = rng.random() < 0.5
+        grouped = rng.choice([False, True, "merge"])
         ctor = {"save_group_times": rng.random() < 0.5, "log_times": rng.random() < 0.3, "verbose": False}
         ev = _mk(it, grouped, **ctor)
         keys0 = list(ev.resulting_metric_keys)
@@ -154,3 +158,20 @@ def bounded(params):
     return {"evaluations": evals, "distinct_nontrivial": nontriv, "failures": failures[:6],
             "rule": "seeded histories of evaluate() calls on shared evaluators interleaved with construction of evaluators and aggregators, random per-call/constructor options, 4 inputs x 3 input types x grouped/ungrouped; every result compared with a fresh evaluator's; keys and saved config compared before/after; real Pool vs serial shim",
             "bound": "6 histories x 5 steps (quick), 40 x 8 (thorough)"}
+
+
+def ctor(params):
+    """constructing an evaluator with a decision metric must not change what default-configured evaluators compute or advertise"""
+    serial_pools()
+    from panoptica import Panoptica_Evaluator
+    from panoptica.metrics import Metric
+    bad = []
+    ev0 = Panoptica_Evaluator()
+    keys0 = list(ev0.resulting_metric_keys)
+    dm = params.get("decision_metric") or "clDSC"
+    for name in ([dm] if dm else []) + ["clDSC", "RVD"]:
+        Panoptica_Evaluator(decision_metric=Metric[name], decision_threshold=0.5)
+    keys1 = list(Panoptica_Evaluator().resulting_metric_keys)
+    if keys1 != keys0:
+        bad.append(f"a default evaluator built afterwards advertises different keys: {sorted(set(keys1) ^ set(keys0))}")
+    return {"violated": bool(bad), "problems": bad}
